@@ -137,6 +137,9 @@ Proof.
     destruct (dlimit c <? scope_size c)%Z; [reflexivity|].
     intro H. rewrite lambda_map_ext; [reflexivity|].
     intro K. apply H. rewrite K. reflexivity.
+  - (* template string *)
+    intro H. rewrite eval_list_ext; [reflexivity|].
+    intro K. apply H. rewrite K. reflexivity.
 Qed.
 
 End EvalExt.
@@ -434,6 +437,7 @@ Proof.
   all: try apply render_include_ext.
   all: try apply render_render_ext.
   all: try apply render_call_ext.
+  all: try apply block_ext.
   - (* output *) intro H. apply write_value_fuel in H. rewrite (Hx c e H). reflexivity.
   - (* echo *) intro H. apply write_value_fuel in H. rewrite (Hx c e H). reflexivity.
   - (* assign *) sub c e. reflexivity.
